@@ -11,6 +11,7 @@ import FP.Proofs.C05Bounds
 import FP.Proofs.C05Opt
 import FP.Proofs.C05KCoverC
 import FP.Proofs.C05KFDC
+import FP.Proofs.C06IncompatPipeline
 import FP.Props.C04
 import FP.Props.C06
 /-!
@@ -35,7 +36,10 @@ the real constructors by the K2 adapters `kcoverc_safety`, `kfdc_safety`):
   (feasibility and minimum) and `kFlowDecompCycles` without given weights (feasibility; the k-model has no
   objective) for **every** subset of the six flags, given what C06 proves about the computed data
   (`SafetyData`); `…_pipeline` — the same for the fragment that `safetyPipeline` computes, under the hypotheses of
-  C06's `incompatible_sound_partial` (`AntichainHyp`, `NoSharedParallel`).
+  C06's `incompatible_sound_partial` (`AntichainHyp`, `NoSharedParallel`); `…_pipeline_…_full`,
+  `pipeline_data_sound_full` — under the contracts of the two oracle parameters only (C06 `incompatible_sound`):
+  `mapping` numbers the strongly connected components (`SccLabelling`) and the captured antichain is pairwise
+  unreachable in the expanded condensation (`CondAntichain`, which C17 proves for the extraction).
 
 Not covered by theorems (oracle only, see `harness/props/c05.py`): the DAG models' options, the error models'
 instances of the generic T3, `kFlowDecompCycles` with `given_weights` (the rows `weights_i = w_i` are not
@@ -295,6 +299,56 @@ theorem pipeline_data_sound (s : STGraph) (hg : GraphWF s.g) (k : Nat) (X T : Li
     (hshare : ∀ safe, maxSafeSeqs s.g s.source s.sink X = .ok safe → NoSharedParallel ⟨s.g, mapping⟩ safe anti) :
     ∃ safe seqs zs, fr = safetyExtra s k safe seqs zs o ∧ SafetyData s k T safe seqs zs :=
   FP.safetyData_of_pipeline s hg k X T hXT mapping anti o fr h hanti hshare
+
+/-! ### the pipeline under the contracts of its two oracle parameters (C06 `incompatible_sound`)
+
+`NoSharedParallel` is not a property of the maximal safe sequences (C06, `exQ_shared`); the three theorems above
+are restated with the hypotheses that the harness checks on every real run: `mapping` is an SCC numbering and the
+captured antichain is pairwise unreachable in the expanded condensation. The sequences handed to
+`get_longest_incompatible_sequences` are the ones `safetyPipeline` computes itself. -/
+
+theorem kcoverc_safety_pipeline_preserves_optimum_full (inp : WalkInput) (hb : BaseWF inp.base) (X : List Edge)
+    (hX : ∀ x ∈ X, x ∈ kcovercTrusted inp) (mapping : List (Node × Nat)) (anti : List (String × String))
+    (o : SafetyOpts) (fr : SafetyFrag) (h : safetyPipeline inp.st inp.k X mapping anti o = .ok fr)
+    (hscc : SccLabelling ⟨inp.st.g, mapping⟩) (hanti : CondAntichain ⟨inp.st.g, mapping⟩ anti)
+    (hcons : ∀ con ∈ inp.cfg.constraints, ∀ e ∈ con, e ∈ inp.st.g.edges)
+    (hcov1 : inp.cfg.coverage ≤ 1) :
+    ((∃ a, Sat a (kcovercLP inp)) ↔ (∃ a, Sat a (kcovercLPS inp fr))) ∧
+    (∀ v, IsMin (fun a => Sat a (kcovercLP inp)) (fun a => evalTerms a (kcovercLP inp).obj) v ↔
+      IsMin (fun a => Sat a (kcovercLPS inp fr)) (fun a => evalTerms a (kcovercLPS inp fr).obj) v) :=
+  FP.c06i_kcoverc_pipeline_preserves inp hb X hX mapping anti o fr h hscc hanti hcons hcov1
+
+theorem kfdc_safety_pipeline_preserves_feasibility_full (inp : WalkInput) (hb : BaseWF inp.base)
+    (hinj : NameInj inp) (X : List Edge) (hX : ∀ x ∈ X, x ∈ kfdcTrusted inp) (mapping : List (Node × Nat))
+    (anti : List (String × String)) (o : SafetyOpts) (fr : SafetyFrag)
+    (h : safetyPipeline inp.st inp.k X mapping anti o = .ok fr)
+    (hscc : SccLabelling ⟨inp.st.g, mapping⟩) (hanti : CondAntichain ⟨inp.st.g, mapping⟩ anti)
+    (hcons : ∀ con ∈ inp.cfg.constraints, ∀ e ∈ con, e ∈ inp.st.g.edges)
+    (hcov1 : inp.cfg.coverage ≤ 1)
+    (hwm : kfdcTrusted inp ≠ [] → 0 < inp.wmax false) :
+    (∃ a, Sat a (kfdcLP inp none)) ↔ (∃ a, Sat a (kfdcLPS inp none fr)) :=
+  FP.c06i_kfdc_pipeline_preserves inp hb hinj X hX mapping anti o fr h hscc hanti hcons hcov1 hwm
+
+/-- the computed data satisfies `SafetyData` (C06 T5, T6 in full, T3); `hnd`: the graph edges are distinct -/
+theorem pipeline_data_sound_full (s : STGraph) (hg : GraphWF s.g) (hnd : s.g.edges.Nodup) (k : Nat)
+    (X T : List Edge) (hXT : ∀ x ∈ X, x ∈ T) (mapping : List (Node × Nat)) (anti : List (String × String))
+    (o : SafetyOpts) (fr : SafetyFrag) (h : safetyPipeline s k X mapping anti o = .ok fr)
+    (hscc : SccLabelling ⟨s.g, mapping⟩) (hanti : CondAntichain ⟨s.g, mapping⟩ anti) :
+    ∃ safe seqs zs, fr = safetyExtra s k safe seqs zs o ∧ SafetyData s k T safe seqs zs :=
+  FP.c06i_safetyData_of_pipeline s hg hnd k X T hXT mapping anti o fr h hscc hanti
+
+/-- the `…_full` forms are not vacuous: on the digraph `exP` of C06 (cycle `a ⇄ b`, parallel edges `a→c`, `b→c`,
+second branch through `d`; SCC numbering and antichain of the real run, `k = 3`, all row-producing flags on) the
+pipeline runs through — three sequences are handed to the slots, twelve edge variables are fixed to zero — both
+contracts hold, and the computed data satisfies `SafetyData` -/
+example : safetyPipeline exPst 3 exP.edges exPc.mapping exPanti exPopts =
+      .ok (safetyExtra exPst 3 exPseqs exPchosen exPzero exPopts) ∧
+    SccLabelling ⟨exPst.g, exPc.mapping⟩ ∧ CondAntichain ⟨exPst.g, exPc.mapping⟩ exPanti ∧
+    ∃ safe seqs zs, safetyExtra exPst 3 exPseqs exPchosen exPzero exPopts = safetyExtra exPst 3 safe seqs zs exPopts ∧
+      SafetyData exPst 3 exP.edges safe seqs zs :=
+  ⟨exP_pipeline, exP_scc, exP_anti,
+   pipeline_data_sound_full exPst exP_wf exP_nodup 3 exP.edges exP.edges (fun _ h => h) exPc.mapping exPanti exPopts _
+     exP_pipeline exP_scc exP_anti⟩
 
 /-! ## Non-vacuity: the README graph `s→a, a⇄b, a→t` (flows 1, 2, 2, 1; `k = 1`) -/
 
